@@ -250,7 +250,10 @@ func c11MapRun(f []string) string {
 
 // c11MapValueTy draws the value type of a map: the shapes that hold references are frequent
 // (options, nested maps, structs with an optional field, slices, varying data types).
-func c11MapValueTy(r *vhRng) *c11Ty {
+func c11MapValueTy(r *vhRng, zeroSeq bool) *c11Ty {
+	if zeroSeq && r.Chance(1, 10) {
+		return c11GenZeroSeqTy(r)
+	}
 	for {
 		var vt *c11Ty
 		switch r.Intn(8) {
@@ -273,7 +276,7 @@ func c11MapValueTy(r *vhRng) *c11Ty {
 		default:
 			vt = c11GenTy(r, r.Intn(3), false)
 		}
-		if !c11SeqOfZeroSize(vt) && !c11HasOptVdt(vt) {
+		if (zeroSeq || !c11SeqOfZeroSize(vt)) && !c11HasOptVdt(vt) {
 			return vt
 		}
 	}
@@ -284,9 +287,12 @@ func c11MapValueTy(r *vhRng) *c11Ty {
 // in Go and in the model).
 func c11MapGen(r *vhRng, mode int) string {
 	kt := &c11Ty{kind: c11MapKeyTypes[r.Intn(len(c11MapKeyTypes))]}
-	vt := c11MapValueTy(r)
-	for mode == 0 && vt.kind == "map" { // menc compares entry encodings: inner maps have no fixed one
-		vt = c11MapValueTy(r)
+	// slices of zero-width elements only where the input is an honest encoding (menc, mrt)
+	vt := c11MapValueTy(r, mode != 2)
+	for (mode == 0 && vt.kind == "map") || (mode != 2 && vt.kind == "res") {
+		// menc compares entry encodings: inner maps have no fixed one; a Result value needs a
+		// pre-populated destination
+		vt = c11MapValueTy(r, mode != 2)
 	}
 	n := r.Pick(0, 1, 2, 2, 3, 3, 4)
 	var es []string
